@@ -9,7 +9,7 @@ python3 tools/extract.py
 # obligations only); build them here too so that the first check does not have to - a failure is reported by the checks, not here
 (cd lean && lake build Urandom.Props.C01T Urandom.Props.C02T Urandom.Props.C02S Urandom.Props.C03T Urandom.Props.C04T Urandom.Props.C04D Urandom.Props.C05T Urandom.Props.C06T Urandom.Props.C07T \
    Urandom.Props.C09T Urandom.Props.C10T Urandom.Props.C11T Urandom.Props.C12T Urandom.Props.C13T Urandom.Props.C14T Urandom.Props.C15T Urandom.Props.C16T \
-   Urandom.Props.C17T Urandom.Props.C18T Urandom.Props.C01R Urandom.Props.C04R Urandom.Props.C13R Urandom.Props.C17R >/dev/null 2>&1 || true)
+   Urandom.Props.C17T Urandom.Props.C18T Urandom.Props.C01R Urandom.Props.C04R Urandom.Props.C13R Urandom.Props.C17R Urandom.Props.C19R >/dev/null 2>&1 || true)
 python3 - <<'PY'
 import sys
 sys.path.insert(0, ".")
